@@ -448,8 +448,56 @@ var vfC16Hostile = vlib.Spec[vfMsgCase]{
 	Run: vfC16Run,
 }
 
+type vfMultiCase struct {
+	Msgs []vfMsgCase `json:"msgs"`
+}
+
+// several encoded frames outstanding at once (queued frames of a sender): every frame must still decode to its
+// own message after the others have been encoded
+func vfC16MultiRun(c vfMultiCase, ctx *vlib.Ctx) *vlib.Failure {
+	var origs []Message
+	var encs [][]byte
+	for i := range c.Msgs {
+		m := c.Msgs[i].build()
+		enc, err := EncodeMessage(m)
+		if err != nil {
+			return vlib.Failf("encode-failed", "message %d: %v", i, err)
+		}
+		origs = append(origs, m)
+		encs = append(encs, enc)
+	}
+	for i, enc := range encs {
+		m, err, pan, _ := vfDecodeGuard(enc)
+		if pan != nil || err != nil {
+			return vlib.Failf("outstanding-frame-corrupted", "frame %d of %d no longer decodes after later messages were encoded: %v %v", i, len(encs), err, pan)
+		}
+		if d := vfSame(origs[i], m); d != "" {
+			return vlib.Failf("outstanding-frame-corrupted", "frame %d of %d decodes to a different message after later messages were encoded: %s", i, len(encs), d)
+		}
+	}
+	if len(encs) >= 2 {
+		ctx.NonTrivial()
+	}
+	return nil
+}
+
+var vfC16Multi = vlib.Spec[vfMultiCase]{
+	Prop: "C16", Name: "outstanding-frames", Scale: 0.3,
+	Rule: "2-4 generated messages are encoded first and decoded afterwards (queued frames): each frame must decode to its own message; non-trivial = >=2 frames; distinct = distinct case JSON",
+	Gen: func(t *rapid.T) vfMultiCase {
+		var c vfMultiCase
+		n := rapid.IntRange(2, 4).Draw(t, "n")
+		for i := 0; i < n; i++ {
+			c.Msgs = append(c.Msgs, vfGenMsg(t))
+		}
+		return c
+	},
+	Run: vfC16MultiRun,
+}
+
 func TestVerif_C16(t *testing.T) {
 	t.Run("roundtrip", func(t *testing.T) { vlib.Both(t, vfC16RoundTrip) })
+	t.Run("multi", func(t *testing.T) { vlib.Both(t, vfC16Multi) })
 	t.Run("hostile", func(t *testing.T) { vlib.Both(t, vfC16Hostile) })
 	t.Run("resources", vfC16Resources)
 }
